@@ -20,7 +20,7 @@ from .eval import AstEval, EvalFunc, EvalFuncVar
 from .event import Event
 from .function import Function
 from .mqtt import Mqtt
-from .state import STATE_VIRTUAL_ATTRS, State
+from .state import STATE_VIRTUAL_ATTRS, State, StateVal
 from .webhook import Webhook
 
 _LOGGER = logging.getLogger(LOGGER_PATH + ".trigger")
@@ -56,6 +56,21 @@ def parse_time_offset(offset_str):
     return value * scale
 
 
+def state_attr_changed(value, old_value, attr, methods=False):
+    """Check whether attribute attr of a state variable differs between its new and old value."""
+    attrs = getattr(value, "__dict__", {})
+    old_attrs = getattr(old_value, "__dict__", {})
+    if attr in attrs or attr in old_attrs:
+        return attrs.get(attr) != old_attrs.get(attr)
+    if methods and callable(getattr(StateVal, attr, None)):
+        #
+        # not an attribute, but a method of the value (eg, domain.name.as_float() in an
+        # expression): it gives something new when the value changes
+        #
+        return value != old_value
+    return False
+
+
 def ident_any_values_changed(func_args, ident):
     """Check for any changes to state or attributes on ident vars."""
     var_name = func_args.get("var_name", None)
@@ -82,7 +97,7 @@ def ident_any_values_changed(func_args, ident):
                     for attr in all_attrs - STATE_VIRTUAL_ATTRS:
                         if getattr(value, attr, None) != getattr(old_value, attr, None):
                             return True
-                elif getattr(value, var_pieces[2], None) != getattr(old_value, var_pieces[2], None):
+                elif state_attr_changed(value, old_value, var_pieces[2]):
                     return True
 
     return False
@@ -106,7 +121,7 @@ def ident_values_changed(func_args, ident):
             if value != old_value:
                 return True
         elif len(var_pieces) == 3 and var_root == var_name:
-            if getattr(value, var_pieces[2], None) != getattr(old_value, var_pieces[2], None):
+            if state_attr_changed(value, old_value, var_pieces[2], methods=True):
                 return True
 
     return False
